@@ -65,8 +65,9 @@ ChooseOp ==
                 /\ (NDim(a) = 1 => mv = <<>>)
                 /\ in' = [in EXCEPT !.op = "dropna", !.d = d, !.minvalid = mv]
      \/ \E fk \in {"f", "i"} : in' = [in EXCEPT !.op = "fillna", !.fkind = fk]
-     \/ ~hasnan /\ \E b \in ValArrays(a) : \E vs \in {<<5>>, <<7, 9>>, <<3>>} : \E form \in {"scalar", "list", "mask"} :
+     \/ ~hasnan /\ \E b \in ValArrays(a) : \E vs \in {<<5>>, <<7, 9>>, <<3>>} : \E form \in {"scalar", "list", "mask", "masklist"} :
           /\ (form = "scalar" => Len(vs) = 1)
+          /\ (form = "masklist" => Len(vs) = 2)          \* a list of a mask (the cells equal to the first value) and the second value
           /\ in' = [in EXCEPT !.op = "setna", !.a = b, !.vals = vs, !.form = form]
 
 Apply ==
